@@ -3,6 +3,7 @@ import RulioModel.MatchFrag
 import RulioProofs.MatchExamples
 import RulioProofs.MatchCompleteG
 import RulioProofs.MatchBound
+import RulioProofs.MatchIneq
 
 /-! # C05 — the matcher is sound and complete for partial matching (property theorems only)
 
@@ -216,3 +217,173 @@ example (bss2 : List Bs) (h2 : matchJ exP' exD [] = .ok bss2) :
     ∃ σ' ∈ bss2, ∀ k, σ'.get? k = exS.get? k :=
   (match_order_independent exP exP' exD [] [exS] bss2 ex_perm exP_ok exD_ok ex_match h2).2.1 exS
     (List.mem_singleton.2 rfl) ex_scalar
+
+/-! ## Inequality variables (`Inequalities: true` in `core.DefaultMatcher`)
+
+The matcher rulio really runs is `matchJI` (`RulioModel/MatchIneq.lean`): `matchJ` plus the experimental sheens
+feature that treats a variable named `"?" ++ ie ++ rest` (`ie` one of `<=`, `>=`, `!=`, `>`, `<`) that is *bound to
+a number in the incoming bindings* as a numeric test against the fact, binding `"?" ++ rest` to the fact.  The
+theorems above are about `matchJ`; `ineq_conservative` transfers all of them to `matchJI` on patterns that mention
+no such variable name, `ineq_semantics*` say what the feature does, and `ineq_repeated_var_order_dependent` shows
+that with it the clause "a variable that occurs more than once must find equal values" is lost. -/
+
+/-- **Conservativity.** If no string of the pattern (value, array element or map key, at any depth) parses as
+an inequality variable, the matcher with `Inequalities: true` is the matcher of the theorems above, on every
+fact and all incoming bindings (whatever those bind). -/
+theorem ineq_conservative (p : J) (hp : noIneqVars p = true) (f : J) (bs : Bs) :
+    matchJI p f bs = matchJ p f bs := matchJI_eq_matchJ p hp f bs
+
+/-- `match_sound` for the faithful matcher: soundness inside the fragment, for patterns without inequality
+variables. -/
+theorem match_sound_faithful (p d : J) (bs : Bs) (bss : List Bs) (σ : Bs)
+    (hi : noIneqVars p = true) (hp : patOK p = true) (hd : dataOK d = true)
+    (hr : matchJI p d bs = .ok bss) (hσ : σ ∈ bss)
+    (hsc : scalarRepeatsIn σ p bs = true) :
+    bs.Ext σ ∧ pmv σ p d = true :=
+  match_sound p d bs bss σ hp hd (ineq_conservative p hi d bs ▸ hr) hσ hsc
+
+/-- `match_complete_noscalar` for the faithful matcher: completeness inside the fragment, for patterns without
+inequality variables. -/
+theorem match_complete_faithful (p d : J) (bs : Bs) (bss : List Bs) (σ : Bs)
+    (hi : noIneqVars p = true) (hp : patOK p = true) (hd : dataOK d = true) (hk : dataKeysOK d = true)
+    (hr : matchJI p d bs = .ok bss)
+    (hext : bs.Ext σ) (hpm : pmv σ p d = true) (hmin : minimalFor σ p bs = true) :
+    ∃ σ' ∈ bss, ∀ k, σ'.get? k = σ.get? k :=
+  match_complete_noscalar p d bs bss σ hp hd hk (ineq_conservative p hi d bs ▸ hr) hext hpm hmin
+
+/-- Which names are inequality variables: `"?" ++ ie ++ rest` for the two-character operators with any `rest`
+(the empty one included: the target is then the anonymous variable `"?"`), for `<` and `>` with a non-empty `rest`
+that does not start with `=`; `"?<"`, `"?>"`, `"?=n"`, `"??<n"` and `"?"` are ordinary names. -/
+theorem ineq_names (rest : String) :
+    ineqOf ("?<=" ++ rest) = some ("<=", rest) ∧ ineqOf ("?>=" ++ rest) = some (">=", rest) ∧
+    ineqOf ("?!=" ++ rest) = some ("!=", rest) ∧
+    (rest ≠ "" → ¬ ['='] <+: rest.toList → ineqOf ("?<" ++ rest) = some ("<", rest) ∧ ineqOf ("?>" ++ rest) = some (">", rest)) ∧
+    ineqOf "?<" = none ∧ ineqOf "?>" = none ∧ ineqOf "?=n" = none ∧ ineqOf "??<n" = none ∧ ineqOf "?" = none ∧
+    ineqOf "?<=" = some ("<=", "") :=
+  ⟨ineqOf_le rest, ineqOf_ge rest, ineqOf_ne rest, fun h1 h2 => ⟨ineqOf_lt rest h1 h2, ineqOf_gt rest h1 h2⟩,
+   by decide, by decide, by decide, by decide, by decide, by decide⟩
+
+/-- **Semantics, target unbound.** `v = "?" ++ ie ++ rest` bound to the number `b`, fact the number `a`, target
+`"?" ++ rest` unbound: the match succeeds iff `a ie b`, and then binds the target to `a` (and nothing else). -/
+theorem ineq_semantics (v ie rest : String) (hv : ineqOf v = some (ie, rest)) (bs : Bs) (a b : Int)
+    (hb : bs.get? v = some (.num b)) (hn : bs.get? ("?" ++ rest) = none) :
+    matchJI (.str v) (.num a) bs = .ok (if ineqSat ie a b then [bs.set ("?" ++ rest) (.num a)] else []) := by
+  rw [matchJI_str]; exact matchStrI_ineq_fresh hv hb hn
+
+/-- `ineq_semantics` spelled out for `<=`, `>=`, `!=`. -/
+theorem ineq_semantics_le_ge_ne (rest : String) (bs : Bs) (a b : Int) (hn : bs.get? ("?" ++ rest) = none) :
+    (bs.get? ("?<=" ++ rest) = some (.num b) →
+      matchJI (.str ("?<=" ++ rest)) (.num a) bs = .ok (if a ≤ b then [bs.set ("?" ++ rest) (.num a)] else [])) ∧
+    (bs.get? ("?>=" ++ rest) = some (.num b) →
+      matchJI (.str ("?>=" ++ rest)) (.num a) bs = .ok (if a ≥ b then [bs.set ("?" ++ rest) (.num a)] else [])) ∧
+    (bs.get? ("?!=" ++ rest) = some (.num b) →
+      matchJI (.str ("?!=" ++ rest)) (.num a) bs = .ok (if a ≠ b then [bs.set ("?" ++ rest) (.num a)] else [])) := by
+  refine ⟨fun hb => ?_, fun hb => ?_, fun hb => ?_⟩
+  · rw [ineq_semantics _ _ _ (ineqOf_le rest) bs a b hb hn, ineqSat_le]; simp
+  · rw [ineq_semantics _ _ _ (ineqOf_ge rest) bs a b hb hn, ineqSat_ge]; simp
+  · rw [ineq_semantics _ _ _ (ineqOf_ne rest) bs a b hb hn, ineqSat_ne]; simp
+
+/-- `ineq_semantics` spelled out for the strict operators `<`, `>` (`rest` non-empty, not starting with `=`). -/
+theorem ineq_semantics_lt_gt (rest : String) (hne : rest ≠ "") (heq : ¬ ['='] <+: rest.toList)
+    (bs : Bs) (a b : Int) (hn : bs.get? ("?" ++ rest) = none) :
+    (bs.get? ("?<" ++ rest) = some (.num b) →
+      matchJI (.str ("?<" ++ rest)) (.num a) bs = .ok (if a < b then [bs.set ("?" ++ rest) (.num a)] else [])) ∧
+    (bs.get? ("?>" ++ rest) = some (.num b) →
+      matchJI (.str ("?>" ++ rest)) (.num a) bs = .ok (if a > b then [bs.set ("?" ++ rest) (.num a)] else [])) := by
+  refine ⟨fun hb => ?_, fun hb => ?_⟩
+  · rw [ineq_semantics _ _ _ (ineqOf_lt rest hne heq) bs a b hb hn, ineqSat_lt]; simp
+  · rw [ineq_semantics _ _ _ (ineqOf_gt rest hne heq) bs a b hb hn, ineqSat_gt]; simp
+
+/-- **Semantics, target bound to a number `c`.** The match succeeds iff `a ie b` and `c = a`; the bindings are
+returned unchanged. -/
+theorem ineq_semantics_target_num (v ie rest : String) (hv : ineqOf v = some (ie, rest)) (bs : Bs) (a b c : Int)
+    (hb : bs.get? v = some (.num b)) (hn : bs.get? ("?" ++ rest) = some (.num c)) :
+    matchJI (.str v) (.num a) bs = .ok (if ineqSat ie a b && c == a then [bs] else []) := by
+  rw [matchJI_str]; exact matchStrI_ineq_bound_num hv hb hn
+
+/-- **Semantics, target bound to a non-number.** A refuted inequality refutes the match, but a satisfied one
+falls back to the ordinary meaning of the bound variable `v`: the match succeeds iff `a ie b` *and* `a = b`
+(so never for the strict operators and `!=`). -/
+theorem ineq_semantics_target_other (v ie rest : String) (hv : ineqOf v = some (ie, rest)) (bs : Bs) (a b : Int)
+    (x : J) (hb : bs.get? v = some (.num b)) (hn : bs.get? ("?" ++ rest) = some x) (hx : ∀ c, x ≠ .num c) :
+    matchJI (.str v) (.num a) bs = .ok (if ineqSat ie a b && b == a then [bs] else []) := by
+  rw [matchJI_str]; exact matchStrI_ineq_bound_other hv hb hn hx
+
+/-- **Where the feature is not used.** An inequality variable that is unbound in the incoming bindings, or bound
+to a non-number, or laid over a fact that is not a number, is an ordinary variable. -/
+theorem ineq_not_used (v : String) (f : J) (bs : Bs)
+    (h : bs.get? v = none ∨ (∃ x, bs.get? v = some x ∧ ∀ b, x ≠ .num b) ∨ ∀ a, f ≠ .num a) :
+    matchJI (.str v) f bs = matchJ (.str v) f bs := by
+  rw [matchJI_str, matchJ_str]
+  rcases h with h | ⟨x, h, hx⟩ | h
+  · exact matchStrI_of_unbound h f
+  · unfold matchStrI
+    rw [inequal_of_bound_not_num h hx]
+    by_cases hv : isVar v = true
+    · by_cases ha : v = "?"
+      · subst ha; simp [matchStr, isVar]
+      · simp [hv, ha]
+    · simp [hv]
+  · exact matchStrI_of_fact_not_num h v bs
+
+set_option linter.unusedSimpArgs false in
+/-- **Negative theorem (inequality variables).** With the feature the clause "a variable that occurs more than
+once must find equal values" fails even for scalars, and the outcome depends on the key order: for the pattern
+`{"a":"?<n","b":"?<n"}` over `{"a":5,"b":3}` with *empty* incoming bindings, in key order `a,b` the first
+occurrence binds `?<n := 5` like an ordinary variable and the second is then the test `3 < 5`, binding `?n := 3`:
+a binding is returned although the two occurrences see different values; in key order `b,a` the test is `5 < 3`
+and nothing is returned.  The matcher without the feature returns nothing in both orders. -/
+theorem ineq_repeated_var_order_dependent :
+    let pab : J := .obj [("a", .str "?<n"), ("b", .str "?<n")]
+    let pba : J := .obj [("b", .str "?<n"), ("a", .str "?<n")]
+    let d : J := .obj [("a", .num 5), ("b", .num 3)]
+    matchJI pab d [] = .ok [[("?n", .num 3), ("?<n", .num 5)]] ∧ matchJI pba d [] = .ok [] ∧
+    matchJ pab d [] = .ok [] ∧ matchJ pba d [] = .ok [] ∧ noIneqVars pab = false ∧
+    patOK pab = true ∧ dataOK d = true := by
+  intro pab pba d
+  have hi : ineqOf "?<n" = some ("<", "n") := by decide
+  have hn : ("?" ++ "n" : String) = "?n" := by decide
+  refine ⟨?_, ?_, ?_, ?_, ?_, ?_, ?_⟩
+  · simp [pab, d, matchJI_obj, matchJI_str, matchOI, matchStrI, inequal, hi, hn, ineqSat, matchStr, isVar, lookupKey,
+      Bs.get?, Bs.set, bind, Except.bind, pure, Except.pure]
+  · simp [pba, d, matchJI_obj, matchJI_str, matchOI, matchStrI, inequal, hi, hn, ineqSat, matchStr, isVar, lookupKey,
+      Bs.get?, Bs.set, bind, Except.bind, pure, Except.pure]
+  · simp [pab, d, matchJ_obj, matchJ_str, matchO, matchStr, isVar, lookupKey, Bs.get?, Bs.set,
+      J.ground, gmatch, bind, Except.bind, pure, Except.pure]
+  · simp [pba, d, matchJ_obj, matchJ_str, matchO, matchStr, isVar, lookupKey, Bs.get?, Bs.set,
+      J.ground, gmatch, bind, Except.bind, pure, Except.pure]
+  · simp [pab, noIneqVars, noIneqVarsO, hi]
+  · simp [pab, patOK, patOKO, isVar, isOptVar]
+  · simp [d, dataOK, dataOKO, isVar]
+
+/-! ### the hypotheses of the inequality theorems are satisfiable -/
+
+/-- `ineq_conservative` / `match_sound_faithful` apply to the worked instance `exP` (no inequality variables) -/
+example : noIneqVars exP = true := by decide
+example : matchJI exP exD [] = .ok [exS] := by rw [ineq_conservative exP (by decide)]; exact ex_match
+example : Bs.Ext [] exS ∧ pmv exS exP exD = true :=
+  match_sound_faithful exP exD [] [exS] exS (by decide) exP_ok exD_ok
+    (by rw [ineq_conservative exP (by decide)]; exact ex_match) (List.mem_singleton.2 rfl) ex_scalar
+
+/-- `ineq_semantics` on the example of the sheens documentation: bindings `{"?<n":10}`, pattern `"?<n"`,
+fact `3` give `{"?<n":10,"?n":3}`; fact `13` gives nothing -/
+example : matchJI (.str "?<n") (.num 3) [("?<n", .num 10)] = .ok [[("?n", .num 3), ("?<n", .num 10)]] := by
+  rw [ineq_semantics "?<n" "<" "n" (by decide) [("?<n", .num 10)] 3 10 (by simp [Bs.get?]) (by simp [Bs.get?])]
+  simp [ineqSat, Bs.set]
+example : matchJI (.str "?<n") (.num 13) [("?<n", .num 10)] = .ok [] := by
+  rw [ineq_semantics "?<n" "<" "n" (by decide) [("?<n", .num 10)] 13 10 (by simp [Bs.get?]) (by simp [Bs.get?])]
+  simp [ineqSat]
+/-- the side conditions of `ineq_semantics_lt_gt` hold for `rest = "n"` -/
+example : ("n" : String) ≠ "" ∧ ¬ ['='] <+: ("n" : String).toList := by decide
+/-- `ineq_semantics_target_num` / `ineq_semantics_target_other`: target pre-bound to the same number, to a
+different number, to a string -/
+example : matchJI (.str "?<=n") (.num 10) [("?<=n", .num 10), ("?n", .num 10)] = .ok [[("?<=n", .num 10), ("?n", .num 10)]] := by
+  rw [ineq_semantics_target_num "?<=n" "<=" "n" (by decide) _ 10 10 10 (by simp [Bs.get?]) (by simp [Bs.get?])]
+  simp [ineqSat]
+example : matchJI (.str "?<=n") (.num 9) [("?<=n", .num 10), ("?n", .num 10)] = .ok [] := by
+  rw [ineq_semantics_target_num "?<=n" "<=" "n" (by decide) _ 9 10 10 (by simp [Bs.get?]) (by simp [Bs.get?])]
+  simp [ineqSat]
+example : matchJI (.str "?<=n") (.num 10) [("?<=n", .num 10), ("?n", .str "x")] = .ok [[("?<=n", .num 10), ("?n", .str "x")]] := by
+  rw [ineq_semantics_target_other "?<=n" "<=" "n" (by decide) _ 10 10 (.str "x") (by simp [Bs.get?]) (by simp [Bs.get?])
+    (by intro c h; cases h)]
+  simp [ineqSat]
